@@ -11,13 +11,13 @@ CLAIMS = {
     "C01": (
         "other",
         "def-use classification of every schedule-dependent observation (taint-style non-interference) over MIR; who-may-call; shared reader laws",
-        "Decides clause (ii) of the decomposition: every use of buf_len / buf / buf_ptr / is_at_end outside the reader has a sanctioned shape (fast/cold selector comparison, prefix slice up to a looked-at offset, use after the source was exhausted, end test after a look-ahead at offset 0); parser code calls no schedule-exposing reader method; Interrupted is retried inside request_more without touching state; position and mark are conserved by refills (C02 laws, re-run here). That the fast and cold implementations compute the same function is C13 / value-level; faithfulness of the window is C02.",
+        "Decides clause (ii) of the decomposition: every use of buf_len / buf / buf_ptr / is_at_end outside the reader has a sanctioned shape (fast/cold selector comparison, prefix slice up to a looked-at offset, use after the source was exhausted, end test after a look-ahead at offset 0); parser code calls no schedule-exposing reader method; Interrupted is retried inside request_more without touching state; position and mark are conserved by refills (C02 laws, re-run here). That the fast and cold implementations compute the same function is C13 / value-level; faithfulness of the window is C02. R5 (shared with C13-R3/R4): the byte-wise scanners' exact behaviour and the fast-path hand-over, since input that arrives in pieces takes the byte-wise path.",
         "DESIGN.md §4 C01",
     ),
     "C02": (
         "other",
         "affine symbolic path execution over MIR (Karr-style linear equalities, no solver), guard dominance, field-store inventory",
-        "Decides that every reader method that writes a bookkeeping field preserves the laws the operation histories compose: position/mark conservation (advance by +n only; request_more and realignment leave both unchanged), window moved with exactly its bytes to offset 0, read results appended at the window end into a slice of exactly chunk_size behind n <= chunk_size, shrink keeps the window, complete/io_error set exactly on Ok(0)/non-Interrupted Err, from_buf_reader chains buffered bytes first. Content equality as such and std's Vec/slice semantics are trusted, not decided. R7: every observer (request_byte_at_offset, its cold path, buf, buf_ptr) indexes the buffer with the cursor as it is at that moment, also after a refill inside the same call.",
+        "Decides that every reader method that writes a bookkeeping field preserves the laws the operation histories compose: position/mark conservation (advance by +n only; request_more and realignment leave both unchanged), window moved with exactly its bytes to offset 0, read results appended at the window end into a slice of exactly chunk_size behind n <= chunk_size, shrink keeps the window, complete/io_error set exactly on Ok(0)/non-Interrupted Err, from_buf_reader chains buffered bytes first. Content equality as such and std's Vec/slice semantics are trusted, not decided. R7: every observer (request_byte_at_offset, its cold path, buf, buf_ptr) indexes the buffer with the cursor as it is at that moment, also after a refill inside the same call. R8 (shared with C09-R1): requests fall short only at the end of the source or on an error (single read site, Interrupted retried in place).",
         "DESIGN.md §4 C02",
     ),
     "C03": (
@@ -29,19 +29,19 @@ CLAIMS = {
     "C04": (
         "other",
         "interprocedural typestate analysis over MIR (path-sensitive abstract interpretation with summaries)",
-        "Decides on every path of every public parser function: no success return rests on an end-of-input look-ahead answer unless the parked I/O error was consulted afterwards; plus who-may-construct SyntaxError, the eof tokens and no-dropped-error rules. It decides this clause, not item equality with the fault-free run. Raising an error takes the parked I/O error out of the reader: no success return may follow a give_up* event or the Err edge of check_io_error (typestate state R).",
+        "Decides on every path of every public parser function: no success return rests on an end-of-input look-ahead answer unless the parked I/O error was consulted afterwards; plus who-may-construct SyntaxError, the eof tokens and no-dropped-error rules. It decides this clause, not item equality with the fault-free run. Raising an error takes the parked I/O error out of the reader: no success return may follow a give_up* event or the Err edge of check_io_error (typestate state R). R5 (shared with C02-R5): every read error other than Interrupted is parked whatever its kind; only Ok(0) is a clean end.",
         "DESIGN.md §4 C04",
     ),
     "C05": (
         "other",
         "instance call-graph SCC analysis; taint analysis of declared numbers with guard-dominance discharge; allocation-size taint; loop progress rule; panic-site inventory with discharge classes",
-        "Decides: the workspace's instance call graph is acyclic (bounded stack); every overflow/division assert and every subtraction in parser-reachable code either has only measures of consumed input as operands or is discharged by a dominating guard, a bounded-result callee, or a listed bound; no allocation is sized by a declared number; every loop has a progress statement on every cycle; every panic-capable construct (unwrap, indexing, advance, explicit panic) is discharged by a class (scanned offsets, digits, pop-after-push, ...) or listed. Wall time, heap constants, allocator aborts and termination of Renumber::transfer on cyclic graphs are not decided.",
+        "Decides: the workspace's instance call graph is acyclic (bounded stack); every overflow/division assert and every subtraction in parser-reachable code either has only measures of consumed input as operands or is discharged by a dominating guard, a bounded-result callee, or a listed bound; no allocation is sized by a declared number; every loop has a progress statement on every cycle; every panic-capable construct (unwrap, indexing, advance, explicit panic) is discharged by a class (scanned offsets, digits, pop-after-push, ...) or listed. Wall time, heap constants, allocator aborts and termination of Renumber::transfer on cyclic graphs are not decided. R7: a token function reports a match only after the cursor moved by a provably positive amount, so the parsers' loops over alternatives cannot spin.",
         "DESIGN.md §4 C05",
     ),
     "C06": (
         "other",
         "guard-dominance, def-use and control-dependence rules over MIR; affine path execution of the header bound chain; frozen oracle tables for defining positions and section counters",
-        "Numeric exactness of the decimal conversion is C13's subject. Decided: every limit the property names is installed from the right source and dominates every hand-out or narrowing: from_dimacs only behind (-limit..=limit).contains, from_code only on codes checked by lit/delta_code, lossy casts listed with their bound; DIMACS limits installed exactly when the header asks and consulted at clause attempt / clean end; AIGER max_lit = 2M+1 everywhere, defining positions, header remainder chain, section counters; inclusive operators; literal type maxima.",
+        "Numeric exactness of the decimal conversion is C13's subject. Decided: every limit the property names is installed from the right source and dominates every hand-out or narrowing: from_dimacs only behind (-limit..=limit).contains, from_code only on codes checked by lit/delta_code, lossy casts listed with their bound; DIMACS limits installed exactly when the header asks and consulted at clause attempt / clean end; AIGER max_lit = 2M+1 everywhere, defining positions, header remainder chain, section counters; inclusive operators; literal type maxima. R1 for loop variables: every assignment of the converted variable passes a range test before it can reach from_dimacs. R9 (shared with C13-R1b/R4): decimal scanning yields the exact value or None.",
         "DESIGN.md §4 C06",
     ),
     "C07": (
@@ -53,7 +53,7 @@ CLAIMS = {
     "C08": (
         "other",
         "interprocedural typestate analysis (mark set/unset) plus per-function path rules with affine offset matching over MIR",
-        "Decides how the three pieces of location state are maintained on every path to an error: mark() only after set_mark() on the current line (all API roots, all call paths), line_start never ahead of the cursor when an error can be raised or a token returns, every matched-and-consumed line feed is counted, errors raised only at the cursor or the mark, column formula. It does not decide that the column lies on the token for errors raised at the cursor after partial look-ahead, nor message text.",
+        "Decides how the three pieces of location state are maintained on every path to an error: mark() only after set_mark() on the current line (all API roots, all call paths), line_start never ahead of the cursor when an error can be raised or a token returns, every matched-and-consumed line feed is counted, errors raised only at the cursor or the mark, column formula. It does not decide that the column lies on the token for errors raised at the cursor after partial look-ahead, nor message text. R3 also: a whole line skipped with next_newline is counted with the same offset, and the line start is only set after the cursor moved when it moved by exactly the line feed.",
         "DESIGN.md §4 C08",
     ),
     "C09": (
@@ -65,31 +65,31 @@ CLAIMS = {
     "C10": (
         "other",
         "dominance rules over MIR (buffer reset discipline on the def-level call graph; guard extraction on the reader's compaction code); interprocedural typestate analysis (line ends looked at beyond the cursor)",
-        "The heap bound itself is a runtime quantity and is not decided. Decided are necessary structural conditions: every growth of a buffer that outlives the call, in code reachable from a streaming parser entry point, is dominated by a clear() of the same buffer; compaction in request_more is decided on live operands, moves the window to offset 0 and the buffer only grows when window + chunk does not fit. (Allocation sized by declared counts is C05-R5.) Also decided (R3, typestate over all token functions and streaming entry points): no second line end is looked at before the cursor moved past the first, so the look-ahead window - which the reader must keep - stays within one line (plus the AIGER comment section, one item by definition).",
+        "The heap bound itself is a runtime quantity and is not decided. Decided are necessary structural conditions: every growth of a buffer that outlives the call, in code reachable from a streaming parser entry point, is dominated by a clear() of the same buffer; compaction in request_more is decided on live operands, moves the window to offset 0 and the buffer only grows when window + chunk does not fit. (Allocation sized by declared counts is C05-R5.) Also decided (R3, typestate over all token functions and streaming entry points): no second line end is looked at before the cursor moved past the first, so the look-ahead window - which the reader must keep - stays within one line (plus the AIGER comment section, one item by definition). R4 (shared with C05-R5): no allocation or reservation sized by a declared number.",
         "DESIGN.md §4 C10",
     ),
     "C11": (
         "other",
         "who-may-call, guard dominance, post-dominance and linear-use (affine path execution) rules over the writer's MIR",
-        "Decides for every path of the writer's methods: the sink is called from two sites only, only while no error is parked, inside the panicked bracket, its error is parked; every flush clears the buffer and writes the whole buffer; in the cold path each part of the input is buffered or written exactly once in order (split at capacity - len); the error is taken exactly once and Write::flush reports it; drop flushes unless a sink write panicked; the integer fast path advances by the written length. Canonical decimal text (itoap) and std's write_all loop are trusted.",
+        "Decides for every path of the writer's methods: the sink is called from two sites only, only while no error is parked, inside the panicked bracket, its error is parked; every flush clears the buffer and writes the whole buffer; in the cold path each part of the input is buffered or written exactly once in order (split at capacity - len); the error is taken exactly once and Write::flush reports it; drop flushes unless a sink write panicked; the integer fast path advances by the written length. Canonical decimal text (itoap) and std's write_all loop are trusted. R4 also: Write::write hands its whole input on and reports its full length (the integer slow path calls it once and ignores the count).",
         "DESIGN.md §4 C11",
     ),
     "C12": (
         "other",
         "call-graph SCC check, def-use provenance of map keys vs. redefinition tests (sibling agreement), guard/dominance and expression-shape rules over MIR",
-        "Functional equivalence of the renumbered circuit (all circuits, all assignments, all option combinations) is value-level and NOT decided; neither are the const-fold case analysis, hash-consing or completeness of the cycle detection. Decided structural necessary conditions: no recursion (explicit stack), every kind of literal used as a key of the renumbering map passes a redefinition test yielding LitAlreadyDefined, every error variant has a producer on the right path and is propagated with `?`, inputs sorted (descending) before a gate is hashed or pushed, a fresh code before every pushed gate, inputs < latches < gates numbering order, LitMap/transfer polarity xor discipline. R5/R6 additionally decide that the literal handed back from the gate arm is the stored literal xor the polarity difference, and that every constant fold is an identity of AND on every decision path (conditions evaluated over the six representative codes).",
+        "Functional equivalence of the renumbered circuit (all circuits, all assignments, all option combinations) is value-level and NOT decided; neither are the const-fold case analysis, hash-consing or completeness of the cycle detection. Decided structural necessary conditions: no recursion (explicit stack), every kind of literal used as a key of the renumbering map passes a redefinition test yielding LitAlreadyDefined, every error variant has a producer on the right path and is propagated with `?`, inputs sorted (descending) before a gate is hashed or pushed, a fresh code before every pushed gate, inputs < latches < gates numbering order, LitMap/transfer polarity xor discipline. R5/R6 additionally decide that the literal handed back from the gate arm is the stored literal xor the polarity difference, and that every constant fold is an identity of AND on every decision path (conditions evaluated over the six representative codes). R7: source-circuit literals and renumbered literals (same type) are never compared or used in each other's place (flow-sensitive numbering tags).",
         "DESIGN.md §4 C12",
     ),
     "C13": (
         "other",
         "def-use discipline rules over MIR, sibling comparison of loop bodies, exhaustive abstract interpretation of the scanning behaviour over (offset label, byte class)",
-        "The numeric value of the SWAR kernel and of the accumulation loops is value-level and not decided. Decided: every overflowing_* flag reaches the one flag gating the returned Option and no other arithmetic touches the value; the five accumulation steps agree (x10, +/- (byte - '0')); the simple scanners' behaviour (digit class, +1 per digit, a lone minus is not passed over) equals the specification exactly for entry offsets 0 and 1; the fast/cold plumbing (cold tail calls, all-matched constants 8/7, continuation at offset+8, checked conversions, sign counted only if a digit followed).",
+        "The numeric value of the SWAR kernel and of the accumulation loops is value-level and not decided. Decided: every overflowing_* flag reaches the one flag gating the returned Option and no other arithmetic touches the value; the five accumulation steps agree (x10, +/- (byte - '0')); the simple scanners' behaviour (digit class, +1 per digit, a lone minus is not passed over) equals the specification exactly for entry offsets 0 and 1; the fast/cold plumbing (cold tail calls, all-matched constants 8/7, continuation at offset+8, checked conversions, sign counted only if a digit followed). R1b: None is returned exactly on the paths where an overflowing_* step reported overflow or None came in, decided as a typestate independent of how the flag is stored. The SWAR kernel's bit-parallel digit classification is value-level and assumed.",
         "DESIGN.md §4 C13",
     ),
     "C14": (
         "other",
         "unsafe-operation inventory over MIR with guard-dominance patterns per class, field confinement, wrap-before-check rule",
-        "Every operation that needs `unsafe` in the workspace (27 today) is classified and must satisfy its class's guard pattern (dominating comparison with the same operands, invariant window, validated or ASCII-class bytes); unknown classes are violations. Trusted fields are private and confined; unchecked advancing is `unsafe fn`; no possibly wrapped value is stored into a trusted field before the check that panics; an untrusted Read cannot enlarge the window. UB inside std/itoap, aliasing models and the SWAR kernels' byte classes are not decided.",
+        "Every operation that needs `unsafe` in the workspace (27 today) is classified and must satisfy its class's guard pattern (dominating comparison with the same operands, invariant window, validated or ASCII-class bytes); unknown classes are violations. Trusted fields are private and confined; unchecked advancing is `unsafe fn`; no possibly wrapped value is stored into a trusted field before the check that panics; an untrusted Read cannot enlarge the window. UB inside std/itoap, aliasing models and the SWAR kernels' byte classes are not decided. R3 also: advance(n) writes no trusted field before the test that may panic.",
         "DESIGN.md §4 C14",
     ),
     "C15": (
